@@ -14,6 +14,7 @@ Property on the real code, independent of the model: for an AST `e` rendered to 
 """
 from __future__ import annotations
 
+import itertools
 import json
 from itertools import count
 from typing import Optional, Sequence
@@ -85,6 +86,9 @@ RAW_CORPUS = ["", " ", "\t ", "()", "( )", "(())", "a{0,0}", "a{,0}", "a{ 1 , 2 
               "(a|b)&(b|a)", "a^b^a", "a|b&a^b", ".{2,}", "a{2}", "a{2,1}", "a{-1,2}", "a{x,2}", "a{", "a}", "a|", "|a",
               "(a", "a)", ")(", "(|a)", "(a|)", "a(*)", "a\nb", "a{1\n,2}", "é*", "a,b", "a{1_0,}",
               "a{ 1 ,\t2 }", "a{ ,2}", "a{1, }", "a{007,010}", "a{ 007 , }", "1{1,1}1", ",{,1},", "-{1,}", "𝒳{2,2}é"]
+
+
+BLANK_ONLY = [""] + ["".join(t) for k in (1, 2, 3) for t in itertools.product(" \t", repeat=k)]
 
 
 def n_words(sigma) -> int:
@@ -278,6 +282,13 @@ def run(ctx: Ctx):
     for s in RAW_CORPUS:
         check_case(ctx, s, None, None, "corpus_raw")
         check_case(ctx, s, "ab", None, "corpus_raw")
+    # the empty regex and blank-only regexes (theorem C10_blank_only; fix 9e58d22): outside the grammar, they
+    # compile to the {ε} NFA over the default alphabet and over every explicit one
+    for s in BLANK_ONLY:
+        for sigma in (None, "ab", "a", "\u00e9\U0001d4b3-", "ab1,-\u00e9\U0001d4b3"):
+            check_case(ctx, s, sigma, ("eps",), "blank_only")
+    ctx.exhaustive("every string of ≤3 blanks (space / tab), default alphabet and four explicit alphabets: "
+                   "compiles to an NFA accepting exactly the empty word")
     # 2. bounded-exhaustive
     allq = R.all_quants()
     for e in R.asts_upto("ab", 1, allq):
